@@ -456,9 +456,35 @@ def check_schedule(ctx):
         if not b0 or b0[0] is None or not b0[0].gens:
             raise AnalysisError('mp_order: message collection not found')
         M = b0[0].gens[0][1]
+    rank_note = ''
+    if not sorted_ok and isinstance(R0, ast.Call) and U(R0.func) == 'sorted' and len(R0.args) == 1 and nodes:
+        # all messages sorted by a rank: a topological order when the rank strictly grows along every dependency.  The number of ANCESTORS
+        # does (u -> v gives anc(u) + {u} inside anc(v)); the number of direct predecessors does not.
+        key = next((k.value for k in R0.keywords if k.arg == 'key'), None)
+        over_all = T(strip_wrappers(R0.args[0])) == T(strip_wrappers(M)) or T(R0.args[0]) in ('%s.nodes()' % G, '%s.nodes' % G, G)
+        rank = None
+        if isinstance(key, ast.Lambda) and len(key.args.args) == 1:
+            rank = (key.args.args[0].arg, key.body)
+        elif isinstance(key, ast.Attribute) and key.attr in ('get', '__getitem__') and isinstance(key.value, (ast.Name, ast.DictComp)):
+            tbl = key.value if isinstance(key.value, ast.DictComp) else (be.env.get(key.value.id) or be.inits.get(key.value.id))
+            if isinstance(tbl, ast.DictComp) and len(tbl.generators) == 1 and isinstance(tbl.generators[0].target, ast.Name) \
+                    and T(tbl.key) == tbl.generators[0].target.id and not tbl.generators[0].ifs:
+                rank = (tbl.generators[0].target.id, tbl.value)
+        if rank is not None and over_all:
+            v_, body_ = rank
+            rt_ = T(body_)
+            if rt_ in ('len(nx.ancestors(%s,%s))' % (G, v_), 'len(networkx.ancestors(%s,%s))' % (G, v_)):
+                sorted_ok = True
+            elif rt_ in ('len(%s.pred[%s])' % (G, v_), '%s.in_degree(%s)' % (G, v_), '%s.in_degree[%s]' % (G, v_), 'len(list(%s.predecessors(%s)))' % (G, v_),
+                         'len(%s.in_edges(%s))' % (G, v_)):
+                rank_note = ('; the messages are ranked by the number of DIRECT prerequisites `%s`, which does not grow along a chain of dependencies: a '
+                             'message with one prerequisite that itself waits for two is scheduled before them' % U(body_))
+            else:
+                raise AnalysisError('mp_order: schedule sorted by the rank `%s`, which is in no recognised form' % U(body_)[:80])
     ctx.ob('schedule', fi, fi.node, sorted_ok and bool(nodes),
            'the schedule is a topological order of the dependency graph `%s` whose nodes are ALL messages (isolated messages included); '
-           'result `%s`, node set %s' % (G, U(R)[:80] if R is not None else None, 'given' if nodes else 'NOT given (messages without dependencies vanish)'),
+           'result `%s`, node set %s%s' % (G, U(R)[:80] if R is not None else None, 'given' if nodes else 'NOT given (messages without dependencies vanish)',
+                                          rank_note),
            construct='topological order over all messages')
     # ---- messages: both directions of every tree edge ---------------------------------------------------------
     ok = False
